@@ -11,8 +11,9 @@ direction; the script cuts them into reads and feeds them to the other side's
 `read` handler (which calls Protocol.add_buffer, as circuits.node.Client does).
 
 Script steps (what a TLC history is realised into):
-  ('S', size, pay, fwk)        A fires a remote event; size 's'|'b', pay 'plain'|'tilde'|'valkey',
-                               fwk 'ok'|'sblk'|'rblk' (event name the firewalls look at)
+  ('S', size, pay, fwk[, conn[, nr]])  A fires a remote event; size 's'|'b', pay 'plain'|'tilde'|'valkey',
+                               fwk 'ok'|'sblk'|'rblk' (event name the firewalls look at); nr: nobody
+                               waits for the result (what Server.send(no_result=True) does)
   ('R', dir, k)                one read of k cells of direction dir (0: A->B, 1: B->A)
   ('Rb', dir, nbytes)          one read of nbytes bytes (random scenarios)
   ('P', sid, v, err)           B's handler for sid finishes: returns value (sid, v) or raises
@@ -37,6 +38,7 @@ PROTECTED = ['cause', 'effects', 'value', 'handler', 'channels', 'waitingHandler
              'child', 'success_channels', 'complete_channels', 'node_call_id', 'node_sock']
 BENIGN_KEYS = ['foo', '_foo']
 HOSTILE_ID0 = 9000
+VMARK = 'C19-VMETA'
 
 _code_cache = {}
 
@@ -210,6 +212,7 @@ class World:
         self.escapes = {}        # index of an escape line in the log -> what the dispatcher was handling
         self.origin = {}         # id(event) -> tag of the packet it was built from
         self.keep = []           # keeps loaded events alive (ids stay unique)
+        self.vpending = []       # hostile value packets decoded in the current add_buffer call
         world = self
 
         def make_node(node):
@@ -222,6 +225,14 @@ class World:
                 return e, wid
 
             mod.load_event = load_event
+            orig_load_value = mod.load_value
+
+            def load_value(s):
+                res = orig_load_value(s)
+                world.on_load_value(node, res)
+                return res
+
+            mod.load_value = load_value
             return Manager(), mod
 
         def make_link(node, conn, m, mod):
@@ -242,7 +253,19 @@ class World:
                     world.on_write(node, conn, data)
 
                 def read(self, data):
-                    self.protocol.add_buffer(data)
+                    try:
+                        self.protocol.add_buffer(data)
+                    finally:
+                        world.after_add_buffer(node)
+
+                def gonr(self, ev, sid):
+                    # exactly what node.Server.send(event, sock, no_result=True) does
+                    iterator = self.protocol.send(ev)
+                    ev.node_without_result = True
+                    try:
+                        next(iterator)
+                    except StopIteration:
+                        pass
 
                 def rcall(self, ev, sid):
                     return self.protocol.send(ev)
@@ -307,6 +330,26 @@ class World:
             return
         self.loaded[id(e)] = (self.proj_id(e), e)
 
+    def on_load_value(self, node, res):
+        """a value packet was decoded: remember hostile ones (they carry a marker value)
+        until add_buffer returns"""
+        val = res[0]
+        if isinstance(val, list) and len(val) == 2 and val[0] == VMARK and isinstance(val[1], int):
+            self.vpending.append(val[1])
+
+    def after_add_buffer(self, node):
+        """did the metadata of a hostile value packet land on the sender's event?"""
+        pend, self.vpending = self.vpending, []
+        for hid in pend:
+            h = self.hostile.get(hid)
+            if h is None:
+                continue
+            sid = h.get('target')
+            ev = self.sends[sid]['ev'] if sid in self.sends else None
+            for key, supplied in h['meta'].items():
+                ov = 1 if (ev is not None and getattr(ev, key, _MISSING) == supplied) else 0
+                self.log.append(line('hattr', min(node, 1), ov, 2, 0, key))
+
     def on_write(self, node, conn, data):
         data = bytes(data)
         idx = min(node, 1)
@@ -316,10 +359,11 @@ class World:
 
     def on_exec(self, node, conn, event, args):
         idx = min(node, 1)
-        wid = getattr(event, 'node_call_id', None)
-        sid = self.wire2sid.get((conn, wid)) if isinstance(wid, int) else None
-        if sid is None and args and isinstance(args[0], int) and args[0] in self.sends:
-            sid = args[0]
+        # the harness puts the send id into args[0]; the wire id is the fallback
+        sid = args[0] if (args and isinstance(args[0], int) and not isinstance(args[0], bool) and args[0] in self.sends) else None
+        if sid is None:
+            wid = getattr(event, 'node_call_id', None)
+            sid = self.wire2sid.get((conn, wid)) if isinstance(wid, int) else None
         if sid is None:
             sid = 0
         got = self.loaded.get(id(event))
@@ -405,7 +449,7 @@ class World:
         self.values[(sid, v)] = val
         return val
 
-    def step_send(self, size, pay, fwk, conn=0):
+    def step_send(self, size, pay, fwk, conn=0, nr=False):
         Event = self.Event
         r = self.rnd
         ch = chan_of(conn)
@@ -440,15 +484,15 @@ class World:
         sok = not ('S' in self.fw and fwk == 'sblk')
         rok = not ('R' in self.fw and fwk == 'rblk')
         pid = self.proj_id(ev)
-        self.sends[sid] = {'ev': ev, 'proj': pid, 'sok': sok, 'rok': rok, 'size': size, 'pay': pay, 'fwk': fwk, 'conn': conn}
+        self.sends[sid] = {'ev': ev, 'proj': pid, 'sok': sok, 'rok': rok, 'size': size, 'pay': pay, 'fwk': fwk, 'conn': conn, 'nr': nr}
         if sok:
             self.wire2sid[(conn, self.nwire[conn])] = sid
             self.sends[sid]['wire'] = self.nwire[conn]
             self.nwire[conn] += 1
-        self.log.append(line('send', sid, pid, 1 if sok else 0, 1 if rok else 0))
+        self.log.append(line('send', sid, pid, 1 if sok else 0, 1 if rok else 0, 'nr' if nr else ''))
         st = self.streams[(conn, 0)]
         npk = len(st.packets)
-        self.fire(0, conn, Event.create('go', ev, sid))
+        self.fire(0, conn, Event.create('gonr' if nr else 'go', ev, sid))
         for pk in st.packets[npk:]:
             pk['kind'] = 'call'
             pk['sid'] = sid
@@ -507,7 +551,7 @@ class World:
 
     def step_hostile(self, cls, key, d=1, variant=0):
         data, meta, desc = hostile_packet(self, cls, key, variant)
-        self.log.append(line('hostile', d, 1 if cls == 'meta' else 0, 0, 0, key if cls == 'meta' else cls))
+        self.log.append(line('hostile', d, {'meta': 1, 'vmeta': 2}.get(cls, 0), 0, 0, key if cls in ('meta', 'vmeta') else cls))
         self.streams[(0, d)].append(data, 'hostile', hostile=True, big=len(data) > 4096, tag='%s:%s' % (cls, key))
         self.hostile_desc = getattr(self, 'hostile_desc', []) + [desc]
 
@@ -537,7 +581,7 @@ class World:
         for st in script:
             op = st[0]
             if op == 'S':
-                self.step_send(st[1], st[2], st[3], st[4] if len(st) > 4 else 0)
+                self.step_send(st[1], st[2], st[3], st[4] if len(st) > 4 else 0, bool(st[5]) if len(st) > 5 else False)
             elif op == 'R':
                 self.step_read(st[1], st[2], conn=st[3] if len(st) > 3 else 0)
             elif op == 'Rb':
@@ -587,7 +631,7 @@ class World:
         elif clause == 'C19.loop_dead':
             w = {'what': ln.get('k'), 'exc': ln.get('s', ''), 'handling': self.escapes.get(badline - 1, '')}
         elif clause == 'C19.attr_overwritten':
-            w = {'key': ln.get('s'), 'at': 'dispatch' if ln.get('b') else 'load'}
+            w = {'key': ln.get('s'), 'at': {0: 'load', 1: 'dispatch', 2: 'value-packet'}.get(ln.get('b'), '?')}
         else:
             w = {'line': ln.get('k'), 'sid': ln.get('id')}
             if ln.get('k') in ('exec', 'deliver') and ln.get('id') in self.sends:
@@ -634,6 +678,7 @@ def hostile_packet(world, cls, key, variant=0):
     base = {'id': wid, 'name': 'hwork', 'args': [wid], 'kwargs': {}, 'success': False, 'failure': False,
             'channels': [], 'notify': False, 'meta': {}}
     meta = {}
+    target = None
     if cls == 'trunc':
         s = json.dumps(base)
         body = s[:r.randint(2, len(s) - 1)].encode()
@@ -678,6 +723,15 @@ def hostile_packet(world, cls, key, variant=0):
              'value': ['FORGED', {'x': 1}, None][variant % 3],
              'meta': {k: sentinel(k, variant) for k in ('cause', 'effects', 'remote_finish', 'foo')}}
         body = json.dumps(d).encode()
+    elif cls == 'vmeta':
+        # an answer to the first call of connection 0 (else to an unknown id) whose metadata names `key`
+        wait = sorted((s['wire'], sid) for sid, s in world.sends.items() if 'wire' in s and s['conn'] == 0)
+        meta = {key: sentinel(key, variant)}
+        if key == 'cause+effects':
+            meta = {'cause': sentinel('cause', variant), 'effects': [1, 2][variant % 2]}
+        d = {'id': wait[0][0] if wait else 4242, 'errors': False, 'value': [VMARK, wid], 'meta': meta}
+        target = wait[0][1] if wait else None
+        body = json.dumps(d).encode()
     elif cls == 'vtypes':
         muts = [{'id': [1], 'errors': False, 'value': 1, 'meta': {}}, {'id': 0, 'errors': False, 'value': 1, 'meta': 5},
                 {'id': 0, 'value': 1, 'meta': {}}, {'value': 1}, {'id': {'a': 1}, 'errors': 0, 'value': [], 'meta': []}]
@@ -686,5 +740,5 @@ def hostile_packet(world, cls, key, variant=0):
         body = b'\xff\xfe{"id": 1}' if variant % 2 else b'{"id": 1, "name": "hw\xc3'
     else:
         raise ValueError('unknown hostile class %r' % cls)
-    world.hostile[wid] = {'cls': cls, 'key': key, 'meta': dict(meta)}
+    world.hostile[wid] = {'cls': cls, 'key': key, 'meta': dict(meta), 'target': target}
     return body + DELIM, meta, {'cls': cls, 'key': key, 'variant': variant, 'bytes': len(body) + 3}
